@@ -575,6 +575,104 @@ func classifyFold(l *loop) foldInfo {
 	return fi
 }
 
+// classifyLabelled: exactly two loops, one inside the other; in the inner one the per-element predicate being
+// false leaves for the outer loop's next iteration (nothing else happens on the way), the predicate being
+// true goes on, and falling out of the inner loop returns true; falling out of the outer loop returns false.
+func classifyLabelled(loops []*loop) (outer, inner foldInfo, ok bool) {
+	if len(loops) != 2 {
+		return
+	}
+	lo, li := loops[0], loops[1]
+	if len(li.body) > len(lo.body) {
+		lo, li = li, lo
+	}
+	for b := range li.body {
+		if !lo.body[b] {
+			return
+		}
+	}
+	// the deciding branch of the inner loop
+	var cond ssa.Value
+	n := 0
+	var tTo, fTo *ssa.BasicBlock
+	for b := range li.body {
+		if b == li.header {
+			continue
+		}
+		iff, isIf := b.Instrs[len(b.Instrs)-1].(*ssa.If)
+		if !isIf {
+			continue
+		}
+		if li.body[b.Succs[0]] && li.body[b.Succs[1]] {
+			continue
+		}
+		n++
+		cond, tTo, fTo = iff.Cond, b.Succs[0], b.Succs[1]
+	}
+	if n != 1 {
+		return
+	}
+	if u, isNot := cond.(*ssa.UnOp); isNot && u.Op == token.NOT {
+		cond = u.X
+		tTo, fTo = fTo, tTo
+	}
+	// predicate true stays in the inner loop; predicate false reaches the outer header through empty blocks
+	if !li.body[tTo] {
+		return
+	}
+	reachesOuterHeader := func(b *ssa.BasicBlock) bool {
+		for i := 0; i < 4; i++ {
+			if b == lo.header {
+				return true
+			}
+			if li.body[b] || !lo.body[b] || len(b.Instrs) != 1 {
+				// the latch of a range loop increments nothing here: the outer header holds the counter phi
+				if lo.body[b] && !li.body[b] && len(b.Succs) == 1 && onlyPure(b) {
+					b = b.Succs[0]
+					continue
+				}
+				return false
+			}
+			if _, isJump := b.Instrs[0].(*ssa.Jump); !isJump {
+				return false
+			}
+			b = b.Succs[0]
+		}
+		return false
+	}
+	if !reachesOuterHeader(fTo) {
+		return
+	}
+	// falling out of the inner loop returns true, out of the outer loop false
+	innerExit, outerExit := "", ""
+	for _, s := range li.header.Succs {
+		if !li.body[s] {
+			innerExit = edgeOutcome(lo, li.header, s, 0)
+		}
+	}
+	for _, s := range lo.header.Succs {
+		if !lo.body[s] {
+			outerExit = edgeOutcome(lo, lo.header, s, 0)
+		}
+	}
+	if innerExit != "true" || outerExit != "false" {
+		return
+	}
+	return foldInfo{kind: "OR"}, foldInfo{kind: "AND", cond: cond}, true
+}
+
+// onlyPure: the block has no effect (arithmetic and a jump)
+func onlyPure(b *ssa.BasicBlock) bool {
+	for _, ins := range b.Instrs {
+		switch ins.(type) {
+		case *ssa.BinOp, *ssa.Jump, *ssa.DebugRef, *ssa.Phi:
+		default:
+			return false
+		}
+	}
+	return true
+}
+
 func ruleQuant(p *Prog, r *Report) {
 	for _, e := range p.Ecos {
 		key := fmt.Sprintf("%s: Contains quantifies over its constraints as the range's data shape says", e.Name)
@@ -611,6 +709,17 @@ func ruleQuant(p *Prog, r *Report) {
 			loops := findLoops(fn)
 			// outer loops first
 			sort.Slice(loops, func(i, j int) bool { return len(loops[i].body) > len(loops[j].body) })
+			// ANY of ALL written with a labelled continue: the inner loop leaves for the next group as soon as
+			// a constraint fails and falling out of it returns true; falling out of the outer loop returns false
+			if fiO, fiI, ok := classifyLabelled(loops); ok {
+				folds = append(folds, fiO.kind, fiI.kind)
+				if c, ok := fiI.cond.(*ssa.Call); ok {
+					if f := c.Call.StaticCallee(); f != nil && p.IsRepoFn(f) && len(findLoops(f)) > 0 {
+						visit(f, depth+1)
+					}
+				}
+				return
+			}
 			for _, l := range loops {
 				fi := classifyFold(l)
 				if fi.kind == "" {
